@@ -158,6 +158,16 @@ impl Model {
         }
     }
 
+    /// abstract state (everything positional removed) as a string, for graph searches
+    pub fn abstract_string(&self) -> String {
+        match self {
+            Model::Req(m) => format!("{:?}", m.abstract_key()),
+            Model::Resp(m) => format!("{:?}", m.abstract_key()),
+            Model::Hdr(m) => format!("{:?}", m.abstract_key()),
+            Model::Chunk(m) => format!("{:?}", m.abstract_key()),
+        }
+    }
+
     pub fn out(&self) -> ModelOut {
         let mut o = ModelOut {
             st: self.status(),
